@@ -39,55 +39,7 @@ def fields_of(variant):
     return ex, st
 
 
-def alias_closure(body, start):
-    """names that may hold (part of) the value bound to `start` inside the arm body"""
-    reach = {start}
-    changed = True
-    nodes = list(walk(body))
-    while changed:
-        changed = False
-
-        def add(name):
-            nonlocal changed
-            if name not in reach:
-                reach.add(name)
-                changed = True
-
-        for n in nodes:
-            k = n["k"]
-            if k == "Local" and n["init"] is not None:
-                if {p["path"] for p in walk(n["init"]) if p["k"] == "Path"} & reach:
-                    for b in walk(n["pat"]):
-                        if b["k"] == "PIdent":
-                            add(b["name"])
-            elif k == "For":
-                if {p["path"] for p in walk(n["iter"]) if p["k"] == "Path"} & reach:
-                    for b in walk(n["pat"]):
-                        if b["k"] == "PIdent":
-                            add(b["name"])
-            elif k == "If" and n["cond"]["k"] == "Let":
-                if {p["path"] for p in walk(n["cond"]["e"]) if p["k"] == "Path"} & reach:
-                    for b in walk(n["cond"]["pat"]):
-                        if b["k"] == "PIdent":
-                            add(b["name"])
-            elif k == "Match":
-                if {p["path"] for p in walk(n["scrut"]) if p["k"] == "Path"} & reach:
-                    for a in n["arms"]:
-                        for b in walk(a["pat"]):
-                            if b["k"] == "PIdent" and not b["name"][:1].isupper():
-                                add(b["name"])
-            elif k == "MethodCall" and n["args"] and n["args"][-1].get("k") == "Closure" and n["method"] in ("any", "all", "map", "for_each", "try_for_each", "find", "position", "filter", "flat_map", "iter_any"):
-                if {p["path"] for p in walk(n["recv"]) if p["k"] == "Path"} & reach:
-                    for pp in n["args"][-1]["inputs"]:
-                        for b in walk(pp):
-                            if b["k"] == "PIdent":
-                                add(b["name"])
-            elif k == "MethodCall" and n["method"] in ("push", "append", "extend", "clone_from", "insert") and n["args"]:
-                if any({p["path"] for p in walk(a) if p["k"] == "Path"} & reach for a in n["args"]):
-                    r = strip(n["recv"])
-                    if r["k"] == "Path":
-                        add(r["path"])
-    return reach
+from a10 import alias_closure  # noqa: E402,F401
 
 
 def sanitised(body, field, K, T, self_name):
@@ -103,6 +55,26 @@ def sanitised(body, field, K, T, self_name):
                     t = render(n["then"])
                     if "Err(" in t:
                         return True, "tested with %s under an error return" % K
+    # (i') the same test with the branches the other way round, or named / folded into an iterator:
+    #      every `Ok(..)` of the arm is reached only when the containment test was false, and the arm has an error result
+    oks = [n for n in walk(body) if n["k"] == "Call" and render(n["func"]) == "Ok"]
+    if oks and "Err(" in render(body):
+        lets_ = {n["pat"]["name"]: n["init"] for n in walk(body) if n["k"] == "Local" and n["pat"]["k"] == "PIdent" and n["init"] is not None and not n["pat"].get("mut")}
+
+        def guarded(okn):
+            for f in conditions_to(body, okn) or []:
+                if f[0] == "if" and not f[2]:
+                    e_ = strip(f[1])
+                    if e_["k"] == "Path" and e_["path"] in lets_:
+                        e_ = lets_[e_["path"]]  # a named test whose definition has control flow inside (closure with match)
+                    for m in method_calls(e_, K):
+                        names = {p["path"] for p in walk(m["recv"]) if p["k"] == "Path"}
+                        if names & (reach | ({self_name} if self_name else set())):
+                            return True
+            return False
+
+        if all(guarded(o) for o in oks):
+            return True, "every Ok result is reached only when %s was false" % K
     # (ii) replaced by the remover's result
     for n in walk(body):
         if n["k"] == "Call" and n["func"]["k"] == "Path" and last(n["func"]["path"]) == T:
